@@ -35,7 +35,7 @@ def compare(src: str, out: str, r: Result, what=("stack",), rgba_tol=1.5 / 255, 
         try:
             # with the default conversion every sub-document is converted in a fresh interpreter, so that state kept at
             # module level (a cache filled while the full document was converted) cannot make a leaf fail "on its own"
-            interference = _only_with_company(src, convert_fn or _fresh_convert, what, rgba_tol, strokes, gradients, min_trusted)
+            interference = _only_with_company(src, convert_fn or _fresh_convert, what, rgba_tol, strokes, gradients, min_trusted, stats.get("bad_pts") if stats else None)
         except Exception:
             interference = False
         if interference:
@@ -77,6 +77,8 @@ def compare(src: str, out: str, r: Result, what=("stack",), rgba_tol=1.5 / 255, 
                 r.info = None
         except Exception:
             pass
+    if stats:
+        stats.pop("bad_pts", None)
     return stats
 
 
@@ -96,7 +98,7 @@ def _fresh_convert(svg_text: str) -> str:
 _LEAF_TAGS = ("rect", "circle", "ellipse", "line", "polyline", "polygon", "path", "use")
 
 
-def _only_with_company(src, convert_fn, what, rgba_tol, strokes, gradients, min_trusted) -> bool:
+def _only_with_company(src, convert_fn, what, rgba_tol, strokes, gradients, min_trusted, bad_pts=None) -> bool:
     """True iff the document has >= 2 rendered leaves and every single-leaf sub-document (all other rendered leaves
     removed; defs, clip paths, ancestors and root kept) converts without mismatch.  False when that cannot be judged
     (a rendered leaf is itself referenced, a sub-document is rejected or fails)."""
@@ -149,13 +151,14 @@ def _only_with_company(src, convert_fn, what, rgba_tol, strokes, gradients, min_
             out2 = convert_fn(sub)
         except Exception:
             return False
-        st2 = _compare(sub, out2, r2, what, rgba_tol, strokes, gradients, 1, "")
+        # every sub-document is also probed at the points where the full document went wrong
+        st2 = _compare(sub, out2, r2, what, rgba_tol, strokes, gradients, 1, "", extra_pts=bad_pts)
         if st2 is None or r2.violations or r2.rejected:
             return False
     return True
 
 
-def _compare(src, out, r, what, rgba_tol, strokes, gradients, min_trusted, label):
+def _compare(src, out, r, what, rgba_tol, strokes, gradients, min_trusted, label, extra_pts=None):
     try:
         s1 = render.build(src, strokes=strokes, gradients=gradients)
     except render.Unsupported as e:
@@ -171,6 +174,8 @@ def _compare(src, out, r, what, rgba_tol, strokes, gradients, min_trusted, label
     pts2 = s2.sample_points(n_halton=0, n_edge=80)
     if len(pts2):
         pts = np.concatenate([pts, pts2])
+    if extra_pts is not None and len(extra_pts):
+        pts = np.concatenate([pts, np.asarray(extra_pts, dtype=float).reshape(-1, 2)])
     r1 = s1.render(pts)
     r2 = s2.render(pts)
     ok = r1.trusted & r2.trusted
@@ -184,8 +189,10 @@ def _compare(src, out, r, what, rgba_tol, strokes, gradients, min_trusted, label
     if stats["trusted"] < min_trusted:
         r.rejected = "too-few-trusted-points"
         return stats
+    allbad = np.zeros(len(pts), dtype=bool)
     if "stack" in what:
         bad = ok & (r1.stack != r2.stack)
+        allbad |= bad
         if bad.any():
             i = int(np.nonzero(bad)[0][0])
             r.bad(
@@ -197,6 +204,7 @@ def _compare(src, out, r, what, rgba_tol, strokes, gradients, min_trusted, label
     if "rgba" in what:
         d = np.abs(r1.rgba - r2.rgba).max(axis=1)
         bad = ok & (d > rgba_tol)
+        allbad |= bad
         if bad.any():
             i = int(np.nonzero(bad)[0][np.argmax(d[bad])])
             r.bad(
@@ -205,4 +213,5 @@ def _compare(src, out, r, what, rgba_tol, strokes, gradients, min_trusted, label
                 f"source rgba={np.round(r1.rgba[i], 3).tolist()} converted rgba={np.round(r2.rgba[i], 3).tolist()}; out={out[:400]}",
             )
             r.info = {"out": out, "point": pts[i].tolist()}
+    stats["bad_pts"] = pts[allbad][:200]
     return stats
